@@ -16,6 +16,10 @@ def hook(ch, ctx):
     detail = {"scenario": ctx["scn"], "step_index": ctx["ti"]}
     fn, body, ent, cmd = conn.cmd_op(step["cmd"])
     mine = [e for e in res["bmc"] if e["accepted"] and e["netfn"] == fn and e["cmd"] == cmd]
+    if hist.refused_locally(step):
+        if res["err"] == "nil":
+            ch.violation(desc, dict(detail, what="a request the library refuses to send returned a result"))
+        return
     if not mine:
         ch.violation(desc, dict(detail, what="no well-formed transmission of the command reached the BMC"))
         return
@@ -33,7 +37,9 @@ def run(ch, build):
     scns = []
     for session in (False, True):
         pool = hist.command_pool(rng, session)
-        pool = [c for c in pool if c["name"] not in ("raw",)]
+        # (a request the library refuses locally transmits nothing, so there is no reply of it to misdeliver: a pattern
+        # built on it degenerates into a duplicate of a reply to the same operation, which C11 excludes)
+        pool = [c for c in pool if c["name"] not in ("raw",) and not hist.refused_locally({"cmd": c})]
         pairs = [(a, b) for a in pool for b in pool if conn.cmd_op(a) != conn.cmd_op(b)]
         if ch.quick():
             pairs = rng.sample(pairs, min(len(pairs), 150))
